@@ -363,6 +363,7 @@ class World:
         self.loop = SimLoop(start, step_cap)
         self.loop.timer_slop = timer_slop
         self.loop.owner_of = lambda h: getattr(h._context.get(CUR_HOST) if h._context is not None else None, "name", None)
+        self.loop.owner_of_context = lambda ctx: getattr(ctx.get(CUR_HOST), "name", None)
         self.t0 = start
         self.hosts = {}
         self.peers = {}
